@@ -506,6 +506,13 @@ func (ff *FactFlow) transfer(b *ssa.BasicBlock, in map[string]bool, upto int) ma
 		i := b.Instrs[idx]
 		if ff.kill != nil {
 			for _, f := range ff.kill(i) {
+				// "fact?guard": kill fact unless guard holds here
+				if q := strings.IndexByte(f, '?'); q >= 0 {
+					if !out[f[q+1:]] {
+						delete(out, f[:q])
+					}
+					continue
+				}
 				delete(out, f)
 			}
 		}
